@@ -290,4 +290,1171 @@ theorem rule_new_rejects_valid_witness :
     (specMatch (ascii "a**b") []).isSome ∧ (specMatch (ascii "***") []).isSome ∧ (specMatch (ascii "[a") []).isSome := by
   decide
 
+/-! ## glob crate vs fnmatch: agreement on the well-behaved class -/
+
+def convItem : Item → CharSpec
+  | .one c => .single c
+  | .range a b => .range a b
+
+/-- The glob-crate token that corresponds to a POSIX pattern token. -/
+def convTok : PTok → Tok
+  | .lit c => .char c
+  | .any => .anyChar
+  | .star => .anySeq
+  | .set false items => .within (items.map convItem)
+  | .set true items => .except (items.map convItem)
+
+theorem inSpecs_conv (items : List Item) (c : Char) : inSpecs (items.map convItem) c = inItems items c := by
+  unfold inSpecs inItems
+  rw [List.any_map]
+  congr 1
+  funext i
+  cases i <;> rfl
+
+theorem mem_suffixes_self (s : List Char) : s ∈ suffixes s := by
+  cases s <;> simp [suffixes]
+
+theorem mem_suffixes_cons {t s : List Char} (c : Char) (h : t ∈ suffixes s) : t ∈ suffixes (c :: s) := by
+  simp [suffixes, h]
+
+theorem mem_suffixes_trans {u t : List Char} : ∀ {s : List Char}, u ∈ suffixes t → t ∈ suffixes s → u ∈ suffixes s := by
+  intro s
+  induction s with
+  | nil =>
+    intro hu ht
+    simp [suffixes] at ht
+    subst ht
+    exact hu
+  | cons c s ih =>
+    intro hu ht
+    simp only [suffixes, List.mem_cons] at ht
+    rcases ht with ht | ht
+    · subst ht; exact hu
+    · exact mem_suffixes_cons c (ih hu ht)
+
+/-- The invariant carried through the token list: `k` (= `matches_from` on the remaining tokens)
+answers `Match` exactly when the declarative matcher `M` accepts, and answers
+`EntirePatternDoesntMatch` only if no suffix of the input is accepted. -/
+def Sound (k : Bool → List Char → MatchResult) (M : List Char → Bool) : Prop :=
+  ∀ fs s, (k fs s = .isMatch ↔ M s = true) ∧
+    (k fs s = .entirePatternDoesntMatch → ∀ t ∈ suffixes s, M t = false)
+
+/-- Body of the `AnySequence` arm of `matches_from`. -/
+def starRes (k : Bool → List Char → MatchResult) (fs : Bool) (s : List Char) : MatchResult :=
+  match k fs s with
+  | .subPatternDoesntMatch => seqLoop k false fs s
+  | m => m
+
+theorem starRes_cons (k : Bool → List Char → MatchResult) (fs : Bool) (c : Char) (s : List Char) :
+    starRes k fs (c :: s) =
+      match k fs (c :: s) with
+      | .subPatternDoesntMatch => starRes k (isSep c) s
+      | m => m := by
+  unfold starRes
+  cases h : k fs (c :: s) <;> simp only []
+  cases s with
+  | nil =>
+    simp only [seqLoop, Bool.false_and, Bool.false_eq_true, if_false]
+    cases k (isSep c) [] <;> rfl
+  | cons d s' =>
+    rw [seqLoop]
+    simp only [Bool.false_and, Bool.false_eq_true, if_false]
+    rfl
+
+theorem starRes_spec (k : Bool → List Char → MatchResult) (M : List Char → Bool) (hk : Sound k M) :
+    ∀ s fs, starRes k fs s = .isMatch ↔ (suffixes s).any M = true := by
+  intro s
+  induction s with
+  | nil =>
+    intro fs
+    have h := (hk fs []).1
+    unfold starRes
+    simp only [seqLoop, suffixes, List.any_cons, List.any_nil, Bool.or_false]
+    cases hr : k fs [] <;> simp_all
+  | cons c s ih =>
+    intro fs
+    rw [starRes_cons]
+    have h1 := (hk fs (c :: s)).1
+    have h2 := (hk fs (c :: s)).2
+    simp only [suffixes, List.any_cons, Bool.or_eq_true]
+    cases hr : k fs (c :: s) with
+    | isMatch =>
+      simp only []
+      constructor
+      · intro _; exact Or.inl (h1.mp hr)
+      · intro _; trivial
+    | subPatternDoesntMatch =>
+      simp only []
+      rw [ih]
+      constructor
+      · intro h; exact Or.inr h
+      · intro h
+        rcases h with h | h
+        · rw [hr] at h1; exact absurd (h1.mpr h) (by simp)
+        · exact h
+    | entirePatternDoesntMatch =>
+      simp only []
+      constructor
+      · intro h; cases h
+      · intro h
+        have hno := h2 hr
+        rcases h with h | h
+        · rw [hno _ (mem_suffixes_self _)] at h; cases h
+        · rw [List.any_eq_true] at h
+          obtain ⟨t, ht, hm⟩ := h
+          rw [hno t (mem_suffixes_cons c ht)] at hm; cases hm
+
+theorem sound_star (k : Bool → List Char → MatchResult) (M : List Char → Bool) (hk : Sound k M) :
+    Sound (starRes k) (fun s => (suffixes s).any M) := by
+  intro fs s
+  refine ⟨starRes_spec k M hk s fs, ?_⟩
+  intro he t ht
+  have hnot : (suffixes s).any M = false := by
+    cases hb : (suffixes s).any M with
+    | false => rfl
+    | true => rw [(starRes_spec k M hk s fs).mpr hb] at he; cases he
+  cases hb : (suffixes t).any M with
+  | false => exact hb
+  | true =>
+    rw [List.any_eq_true] at hb
+    obtain ⟨u, hu, hm⟩ := hb
+    have : (suffixes s).any M = true := List.any_eq_true.mpr ⟨u, mem_suffixes_trans hu ht, hm⟩
+    rw [hnot] at this; cases this
+
+theorem sound_single (tk : Tok) (hns : tk.isSeq = false) (ts : List Tok) (M' M : List Char → Bool)
+    (hnil : M [] = false) (hcons : ∀ c s, M (c :: s) = (tokOk tk c && M' s))
+    (ih : Sound (matchesFrom ts) M') : Sound (matchesFrom (tk :: ts)) M := by
+  intro fs s
+  cases s with
+  | nil =>
+    simp only [matchesFrom, hns, Bool.false_eq_true, if_false, hnil, suffixes, List.mem_singleton]
+    constructor
+    · simp
+    · intro _ t ht; subst ht; exact hnil
+  | cons c s =>
+    simp only [matchesFrom, hns, Bool.false_eq_true, if_false, hcons]
+    cases hok : tokOk tk c with
+    | false =>
+      simp
+    | true =>
+      simp only [if_true, Bool.true_and]
+      refine ⟨(ih (isSep c) s).1, ?_⟩
+      intro he t ht
+      have hno := (ih (isSep c) s).2 he
+      simp only [suffixes, List.mem_cons] at ht
+      have aux : ∀ t, t ∈ suffixes s → M t = false := by
+        intro t ht
+        cases t with
+        | nil => exact hnil
+        | cons d t' =>
+          rw [hcons, hno t' (mem_suffixes_trans (mem_suffixes_cons d (mem_suffixes_self t')) ht)]
+          simp
+      rcases ht with ht | ht
+      · subst ht
+        rw [hcons, hno s (mem_suffixes_self s)]; simp
+      · exact aux t ht
+
+theorem matchesFrom_star (ts : List Tok) : matchesFrom (.anySeq :: ts) = starRes (matchesFrom ts) := by
+  funext fs s
+  unfold starRes
+  simp only [matchesFrom, Tok.isSeq, if_true]
+  have : (Tok.anySeq == Tok.anyRec) = false := by decide
+  rw [this]
+  rfl
+
+/-- **Matcher equivalence**: on token lists that come from POSIX tokens, the glob crate's
+three-valued backtracking matcher accepts exactly what the declarative `pmatch` accepts. -/
+theorem matchesFrom_sound (ts : List PTok) : Sound (matchesFrom (ts.map convTok)) (pmatch ts) := by
+  induction ts with
+  | nil =>
+    intro fs s
+    cases s <;> simp [matchesFrom, pmatch]
+  | cons tok ts ih =>
+    cases tok with
+    | star =>
+      simp only [List.map, convTok]
+      rw [matchesFrom_star]
+      have := sound_star _ _ ih
+      have hM : (fun s => (suffixes s).any (pmatch ts)) = pmatch (.star :: ts) := by
+        funext s; simp [pmatch]
+      rw [hM] at this
+      exact this
+    | lit c =>
+      refine sound_single (.char c) rfl _ (pmatch ts) _ (by simp [pmatch]) ?_ ih
+      intro d s
+      simp only [pmatch, tokOk]
+      rw [BEq.comm]
+    | any =>
+      refine sound_single .anyChar rfl _ (pmatch ts) _ (by simp [pmatch]) ?_ ih
+      intro d s
+      simp [pmatch, tokOk]
+    | set neg items =>
+      cases neg with
+      | false =>
+        refine sound_single (.within (items.map convItem)) rfl _ (pmatch ts) _ (by simp [pmatch]) ?_ ih
+        intro d s
+        simp [pmatch, tokOk, inSpecs_conv]
+      | true =>
+        refine sound_single (.except (items.map convItem)) rfl _ (pmatch ts) _ (by simp [pmatch]) ?_ ih
+        intro d s
+        simp [pmatch, tokOk, inSpecs_conv]
+
+theorem patternMatches_eq_pmatch (ts : List PTok) (s : List Char) :
+    patternMatches (ts.map convTok) s = pmatch ts s := by
+  unfold patternMatches
+  have h := (matchesFrom_sound ts true s).1
+  cases hb : pmatch ts s with
+  | true => rw [h.mpr hb]; rfl
+  | false =>
+    cases hr : matchesFrom (ts.map convTok) true s with
+    | isMatch => rw [h.mp hr] at hb; cases hb
+    | _ => rfl
+
+/-! ### Parsing: `Pattern::new ∘ replace("[^","[!")` vs the POSIX tokeniser -/
+
+/-- Chars before the first `]`, and the chars after it. -/
+def cutAtClose : List Char → Option (List Char × List Char)
+  | [] => none
+  | c :: rest => if c == ']' then some ([], rest) else (cutAtClose rest).map (fun (a, b) => (c :: a, b))
+
+/-- Admissible contents of a bracket expression (first member up to, not including, the closing
+`]`): no backslash, and no `[` that is immediately followed by `^` (wild rewrites `[^` textually)
+or by `:`, `.`, `=` (POSIX character classes etc., outside the spec's domain). -/
+def bodyOk : List Char → Bool
+  | [] => true
+  | c :: rest =>
+    c != '\\' &&
+    !(c == '[' && (rest.head? == some '^' || rest.head? == some ':' || rest.head? == some '.' || rest.head? == some '=')) &&
+    bodyOk rest
+
+/-- Drop the negation mark of a bracket expression. -/
+def stripNeg : List Char → List Char
+  | '!' :: r => r
+  | '^' :: r => r
+  | r => r
+
+/-- The text after `[` / `[!` / `[^`: first member `x` (any character, also `]`), then everything up
+to the next `]`. Returns the members' text and the text after the closing `]`. -/
+def bracketSplit : List Char → Option (List Char × List Char)
+  | [] => none
+  | x :: r' =>
+    match cutAtClose r' with
+    | none => none
+    | some (body, after) => if bodyOk (x :: body) then some (x :: body, after) else none
+
+/-- Scanner for the well-behaved class (fuel = an upper bound of the length + 1). -/
+def wbFrom : Nat → List Char → Bool
+  | 0, _ => false
+  | _, [] => true
+  | fuel + 1, c :: rest =>
+    if c == '\\' then false
+    else if c == '*' then rest.head? != some '*' && wbFrom fuel rest
+    else if c == '[' then
+      match bracketSplit (stripNeg rest) with
+      | none => false
+      | some (_, after) => wbFrom fuel after
+    else wbFrom fuel rest
+
+/-- **The class.** No backslash; no `**`; every `[` outside a bracket expression opens one:
+`[`, optional `!` or `^`, one member character (may be `]`), then anything up to the next `]`,
+which must exist; inside, no backslash and no `[` followed by `^ : . =`. Everything else (`?`,
+single `*`, ordinary characters, `]`, `!`, `^`, `-` outside brackets; ranges inside) is free. -/
+def WellBehaved (p : List Char) : Bool := wbFrom (p.length + 1) p
+
+theorem cutAtClose_spec : ∀ (l body after : List Char), cutAtClose l = some (body, after) →
+    l = body ++ ']' :: after ∧ ']' ∉ body := by
+  intro l
+  induction l with
+  | nil => intro body after h; simp [cutAtClose] at h
+  | cons c rest ih =>
+    intro body after h
+    simp only [cutAtClose] at h
+    by_cases hc : c = ']'
+    · subst hc
+      simp at h
+      obtain ⟨h1, h2⟩ := h
+      subst h1; subst h2
+      simp
+    · have hc' : (c == ']') = false := by simp [hc]
+      rw [hc'] at h
+      simp only [Bool.false_eq_true, if_false] at h
+      cases hr : cutAtClose rest with
+      | none => rw [hr] at h; simp at h
+      | some pr =>
+        obtain ⟨a, b⟩ := pr
+        rw [hr] at h
+        simp at h
+        obtain ⟨h1, h2⟩ := h
+        subst h1; subst h2
+        obtain ⟨e1, e2⟩ := ih a b hr
+        subst e1
+        simp [e2]
+        exact fun h => hc h.symm
+
+theorem splitClose_append (body after : List Char) (h : ']' ∉ body) :
+    splitClose (body ++ ']' :: after) = some (body, after) := by
+  induction body with
+  | nil => simp [splitClose]
+  | cons c body ih =>
+    have hc : c ≠ ']' := fun e => h (by simp [e])
+    have hb : ']' ∉ body := fun e => h (by simp [e])
+    simp [splitClose, hc, ih hb]
+
+theorem bodyOk_cons {c : Char} {rest : List Char} (h : bodyOk (c :: rest) = true) :
+    c ≠ '\\' ∧ bodyOk rest = true ∧
+    (c = '[' → rest.head? ≠ some '^' ∧ rest.head? ≠ some ':' ∧ rest.head? ≠ some '.' ∧ rest.head? ≠ some '=') := by
+  simp only [bodyOk, Bool.and_eq_true, bne_iff_ne, ne_eq, Bool.not_eq_true', Bool.and_eq_false_iff,
+    Bool.or_eq_false_iff, beq_eq_false_iff_ne, beq_iff_eq] at h
+  obtain ⟨⟨h1, h2⟩, h3⟩ := h
+  refine ⟨h1, h3, ?_⟩
+  intro hc
+  rcases h2 with h2 | h2
+  · exact absurd hc h2
+  · exact ⟨h2.1.1.1, h2.1.1.2, h2.1.2, h2.2⟩
+
+theorem replaceCaret_cons_of_ne (c : Char) (rest : List Char) (h : c = '[' → rest.head? ≠ some '^') :
+    replaceCaret (c :: rest) = c :: replaceCaret rest := by
+  conv => lhs; unfold replaceCaret
+  split
+  · rename_i heq
+    simp at heq
+    obtain ⟨h1, h2⟩ := heq
+    subst h1; subst h2
+    simp at h
+  · rename_i heq
+    simp at heq
+    obtain ⟨h1, h2⟩ := heq
+    subst h1; subst h2
+    rfl
+  · rename_i heq; simp at heq
+
+theorem replaceCaret_length : ∀ (n : Nat) (l : List Char), l.length ≤ n → (replaceCaret l).length = l.length := by
+  intro n
+  induction n with
+  | zero => intro l h; cases l with
+    | nil => simp [replaceCaret]
+    | cons _ _ => simp at h
+  | succ n ih =>
+    intro l h
+    unfold replaceCaret
+    split
+    · simp at h ⊢; exact ih _ (by omega)
+    · simp at h ⊢; exact ih _ (by omega)
+    · rfl
+
+theorem replaceCaret_head (l : List Char) : (replaceCaret l).head? = l.head? := by
+  unfold replaceCaret
+  split <;> simp
+
+theorem replaceCaret_body (body r : List Char) (h : bodyOk body = true) :
+    replaceCaret (body ++ ']' :: r) = body ++ ']' :: replaceCaret r := by
+  induction body with
+  | nil =>
+    simp only [List.nil_append]
+    exact replaceCaret_cons_of_ne _ _ (by intro h; simp at h)
+  | cons c body ih =>
+    obtain ⟨_, h2, h3⟩ := bodyOk_cons h
+    simp only [List.cons_append]
+    rw [replaceCaret_cons_of_ne, ih h2]
+    intro hc
+    have := (h3 hc).1
+    cases body with
+    | nil => simp
+    | cons d body => simpa using this
+
+/-! #### one step of `Pattern::new` -/
+
+theorem parseLoop_nil (f : Nat) (prev : Option Char) (acc : List Tok) :
+    parseLoop (f + 1) prev acc [] = some acc.reverse := by
+  simp [parseLoop]
+
+theorem parseLoop_lit (f : Nat) (prev : Option Char) (acc : List Tok) (c : Char) (rest : List Char)
+    (h1 : c ≠ '?') (h2 : c ≠ '*') (h3 : c ≠ '[') :
+    parseLoop (f + 1) prev acc (c :: rest) = parseLoop f (some c) (.char c :: acc) rest := by
+  simp [parseLoop, h1, h2, h3]
+
+theorem parseLoop_quest (f : Nat) (prev : Option Char) (acc : List Tok) (rest : List Char) :
+    parseLoop (f + 1) prev acc ('?' :: rest) = parseLoop f (some '?') (.anyChar :: acc) rest := by
+  simp [parseLoop]
+
+theorem parseLoop_star (f : Nat) (prev : Option Char) (acc : List Tok) (rest : List Char)
+    (h : rest.head? ≠ some '*') :
+    parseLoop (f + 1) prev acc ('*' :: rest) = parseLoop f (some '*') (.anySeq :: acc) rest := by
+  conv => lhs; unfold parseLoop
+  simp only [show ('*' == '?') = false by decide, show ('*' == '*') = true by decide, Bool.false_eq_true, if_false, if_true]
+  split
+  · simp at h
+  · simp at h
+  · rfl
+
+theorem parseLoop_neg (f : Nat) (prev : Option Char) (acc : List Tok) (x : Char) (body after : List Char)
+    (h : ']' ∉ body) :
+    parseLoop (f + 1) prev acc ('[' :: '!' :: x :: (body ++ ']' :: after)) =
+      parseLoop f (some ']') (.except (parseSpecs (x :: body)) :: acc) after := by
+  conv => lhs; unfold parseLoop
+  simp only [show ('[' == '?') = false by decide, show ('[' == '*') = false by decide, show ('[' == '[') = true by decide,
+    Bool.false_eq_true, if_false, if_true]
+  have : (body ++ ']' :: after).isEmpty = false := by cases body <;> rfl
+  simp only [this, Bool.false_eq_true, if_false, splitClose_append body after h]
+
+theorem parseLoop_pos (f : Nat) (prev : Option Char) (acc : List Tok) (x : Char) (body after : List Char)
+    (hx : x ≠ '!') (h : ']' ∉ body) :
+    parseLoop (f + 1) prev acc ('[' :: x :: (body ++ ']' :: after)) =
+      parseLoop f (some ']') (.within (parseSpecs (x :: body)) :: acc) after := by
+  conv => lhs; unfold parseLoop
+  simp only [show ('[' == '?') = false by decide, show ('[' == '*') = false by decide, show ('[' == '[') = true by decide,
+    Bool.false_eq_true, if_false, if_true]
+  have : (body ++ ']' :: after).isEmpty = false := by cases body <;> rfl
+  split
+  · rename_i heq; simp at heq; exact absurd heq.1 hx
+  · rename_i heq; simp at heq; exact absurd heq.1 hx
+  · rename_i heq
+    simp at heq
+    obtain ⟨h1, h2⟩ := heq
+    subst h1; subst h2
+    simp only [this, Bool.false_eq_true, if_false, splitClose_append body after h]
+  · rename_i heq; simp at heq
+
+/-! #### the POSIX tokeniser on a well-formed bracket expression -/
+
+def unconvItem : CharSpec → Item
+  | .single c => .one c
+  | .range a b => .range a b
+
+theorem convItem_unconv (l : List CharSpec) : (l.map unconvItem).map convItem = l := by
+  induction l with
+  | nil => rfl
+  | cons a l ih => cases a <;> simp [unconvItem, convItem, ih]
+
+theorem convItem_unconv' (l : List CharSpec) : l.map (convItem ∘ unconvItem) = l := by
+  rw [← List.map_map, convItem_unconv]
+
+theorem bracketChar_cons (a : Char) (r : List Char) (h : a ≠ '\\') : bracketChar (a :: r) = some (a, r) := by
+  unfold bracketChar
+  split
+  · rename_i heq; simp at heq; exact absurd heq.1 h
+  · rename_i heq; simp at heq; exact absurd heq.1 h
+  · rename_i heq; simp at heq; obtain ⟨h1, h2⟩ := heq; subst h1; subst h2; rfl
+  · rename_i heq; simp at heq
+
+/-- `closed`-continuation used by `bracketBody`. -/
+def consItem (i : Item) : Bracket → Bracket
+  | .closed items rest => .closed (i :: items) rest
+  | b => b
+
+theorem bracketBody_range (f : Nat) (first : Bool) (a b : Char) (r3 : List Char)
+    (ha : a ≠ '\\') (hb : b ≠ '\\') (hb2 : b ≠ ']') (hcl : first = false → a ≠ ']') :
+    bracketBody (f + 1) first (a :: '-' :: b :: r3) = consItem (.range a b) (bracketBody f false r3) := by
+  conv => lhs; unfold bracketBody
+  have h1 : (a == ']' && !first) = false := by
+    cases first with
+    | true => simp
+    | false => simp [hcl rfl]
+  simp only [h1, Bool.false_eq_true, if_false, List.head?_cons,
+    show (some '-' == some ':') = false by decide, show (some '-' == some '.') = false by decide,
+    show (some '-' == some '=') = false by decide, Bool.or_false, Bool.and_false,
+    bracketChar_cons a _ ha, bracketChar_cons b _ hb]
+  split
+  · rename_i heq; simp at heq
+  · rename_i heq; simp at heq; exact absurd heq.1 hb2
+  · unfold consItem; rfl
+
+theorem bracketBody_one (f : Nat) (first : Bool) (a : Char) (r1 : List Char)
+    (ha : a ≠ '\\') (hcl : first = false → a ≠ ']')
+    (hcls : a = '[' → r1.head? ≠ some ':' ∧ r1.head? ≠ some '.' ∧ r1.head? ≠ some '=')
+    (hr : ∀ r2, r1 = '-' :: r2 → r2.head? = some ']') :
+    bracketBody (f + 1) first (a :: r1) = consItem (.one a) (bracketBody f false r1) := by
+  conv => lhs; unfold bracketBody
+  have h1 : (a == ']' && !first) = false := by
+    cases first with
+    | true => simp
+    | false => simp [hcl rfl]
+  have h2 : (a == '[' && (r1.head? == some ':' || r1.head? == some '.' || r1.head? == some '=')) = false := by
+    by_cases hb : a = '['
+    · obtain ⟨x, y, z⟩ := hcls hb
+      simp [x, y, z]
+    · simp [hb]
+  simp only [h1, h2, Bool.false_eq_true, if_false, bracketChar_cons a _ ha]
+  split
+  · rename_i r2
+    have := hr r2 rfl
+    split
+    · simp at this
+    · unfold consItem; rfl
+    · rename_i hnil hclose
+      cases r2 with
+      | nil => simp at this
+      | cons d r => simp at this; subst this; exact absurd rfl (hclose r)
+  · unfold consItem; rfl
+
+theorem bracketBody_close (f : Nat) (after : List Char) :
+    bracketBody (f + 1) false (']' :: after) = .closed [] after := by
+  simp [bracketBody]
+
+/-- The glob crate's `parse_char_specifiers` on the extracted body and the POSIX scan of the same
+text produce the same members, and both stop at the same `]`. -/
+theorem bracketBody_closed (body : List Char) : ∀ (first : Bool) (after : List Char) (f : Nat),
+    body.length < f → bodyOk body = true →
+    (first = true → body ≠ [] ∧ ']' ∉ body.tail) → (first = false → ']' ∉ body) →
+    bracketBody f first (body ++ ']' :: after) = .closed ((parseSpecs body).map unconvItem) after := by
+  induction body using parseSpecs.induct with
+  | case1 a b rest ih =>
+    intro first after f hf hok h1 h2
+    obtain ⟨f, rfl⟩ : ∃ g, f = g + 1 := ⟨f - 1, by omega⟩
+    obtain ⟨ha, hok1, _⟩ := bodyOk_cons hok
+    obtain ⟨_, hok2, _⟩ := bodyOk_cons hok1
+    obtain ⟨hb, hok3, _⟩ := bodyOk_cons hok2
+    have hnot : ']' ∉ ('-' :: b :: rest) := by
+      cases first with
+      | true => exact (h1 rfl).2
+      | false => intro hm; exact h2 rfl (List.mem_cons_of_mem _ hm)
+    have hb2 : b ≠ ']' := fun e => hnot (by simp [e])
+    have hrest : ']' ∉ rest := fun e => hnot (by simp [e])
+    simp only [List.cons_append]
+    rw [bracketBody_range f first a b _ ha hb hb2 (fun hf' e => h2 hf' (by simp [e]))]
+    rw [ih false after f (by simp at hf; omega) hok3 (by intro h; cases h) (fun _ => hrest)]
+    simp [parseSpecs, consItem, unconvItem]
+  | case2 a rest hne ih =>
+    intro first after f hf hok h1 h2
+    obtain ⟨f, rfl⟩ : ∃ g, f = g + 1 := ⟨f - 1, by omega⟩
+    obtain ⟨ha, hok1, hcls⟩ := bodyOk_cons hok
+    have hrest : ']' ∉ rest := by
+      cases first with
+      | true => exact (h1 rfl).2
+      | false => intro hm; exact h2 rfl (List.mem_cons_of_mem _ hm)
+    simp only [List.cons_append]
+    rw [bracketBody_one f first a _ ha (fun hf' e => h2 hf' (by simp [e]))]
+    · rw [ih false after f (by simp at hf; omega) hok1 (by intro h; cases h) (fun _ => hrest)]
+      rw [parseSpecs]
+      · simp [consItem, unconvItem]
+      · exact hne
+    · intro hb
+      obtain ⟨_, x, y, z⟩ := hcls hb
+      cases rest with
+      | nil => simp
+      | cons d r =>
+        simp only [List.cons_append, List.head?_cons] at x y z ⊢
+        exact ⟨x, y, z⟩
+    · intro r2 hr2
+      cases rest with
+      | nil => simp at hr2
+      | cons d r =>
+        simp at hr2
+        obtain ⟨hd, hr2⟩ := hr2
+        subst hd
+        cases r with
+        | nil => simp at hr2; subst hr2; rfl
+        | cons e r' => exact absurd rfl (hne e r')
+  | case3 =>
+    intro first after f hf hok h1 h2
+    obtain ⟨f, rfl⟩ : ∃ g, f = g + 1 := ⟨f - 1, by omega⟩
+    cases first with
+    | true => exact absurd rfl (h1 rfl).1
+    | false => simp [bracketBody_close, parseSpecs]
+
+theorem bracketSplit_spec {r m after : List Char} (h : bracketSplit r = some (m, after)) :
+    ∃ x body, m = x :: body ∧ r = x :: (body ++ ']' :: after) ∧ ']' ∉ body ∧ bodyOk (x :: body) = true := by
+  cases r with
+  | nil => simp [bracketSplit] at h
+  | cons x r' =>
+    simp only [bracketSplit] at h
+    cases hc : cutAtClose r' with
+    | none => rw [hc] at h; simp at h
+    | some pr =>
+      obtain ⟨body, aft⟩ := pr
+      rw [hc] at h
+      simp only [] at h
+      by_cases hok : bodyOk (x :: body) = true
+      · simp only [hok, if_true, Option.some.injEq, Prod.mk.injEq] at h
+        obtain ⟨h1, h2⟩ := h
+        subst h1; subst h2
+        obtain ⟨e1, e2⟩ := cutAtClose_spec _ _ _ hc
+        exact ⟨x, body, rfl, by rw [e1], e2, hok⟩
+      · simp [hok] at h
+
+/-! #### one step of the POSIX tokeniser -/
+
+theorem tokenize_br_bang (f : Nat) (bd items after : List _) (h : bracketBody (bd.length + 1) true bd = .closed items after) :
+    tokenize (f + 1) ('[' :: '!' :: bd) = (tokenize f after).map (.set true items :: ·) := by
+  conv => lhs; unfold tokenize
+  simp only [show ('[' == '\\') = false by decide, show ('[' == '?') = false by decide, show ('[' == '*') = false by decide,
+    show ('[' == '[') = true by decide, Bool.false_eq_true, if_false, if_true, h]
+
+theorem tokenize_br_caret (f : Nat) (bd items after : List _) (h : bracketBody (bd.length + 1) true bd = .closed items after) :
+    tokenize (f + 1) ('[' :: '^' :: bd) = (tokenize f after).map (.set true items :: ·) := by
+  conv => lhs; unfold tokenize
+  simp only [show ('[' == '\\') = false by decide, show ('[' == '?') = false by decide, show ('[' == '*') = false by decide,
+    show ('[' == '[') = true by decide, Bool.false_eq_true, if_false, if_true, h]
+
+theorem tokenize_br_pos (f : Nat) (x : Char) (bd items after : List _) (hx1 : x ≠ '!') (hx2 : x ≠ '^')
+    (h : bracketBody ((x :: bd).length + 1) true (x :: bd) = .closed items after) :
+    tokenize (f + 1) ('[' :: x :: bd) = (tokenize f after).map (.set false items :: ·) := by
+  conv => lhs; unfold tokenize
+  simp only [show ('[' == '\\') = false by decide, show ('[' == '?') = false by decide, show ('[' == '*') = false by decide,
+    show ('[' == '[') = true by decide, Bool.false_eq_true, if_false, if_true]
+  split
+  · rename_i its rst heq
+    revert heq
+    split
+    · rename_i h2; simp at h2; exact absurd h2.1 hx1
+    · rename_i h2; simp at h2; exact absurd h2.1 hx2
+    · intro heq
+      simp only [] at heq
+      rw [h] at heq
+      cases heq
+      rfl
+  · rename_i heq
+    revert heq
+    split
+    · rename_i h2; simp at h2; exact absurd h2.1 hx1
+    · rename_i h2; simp at h2; exact absurd h2.1 hx2
+    · intro heq
+      simp only [] at heq
+      rw [h] at heq
+      cases heq
+  · rename_i heq
+    revert heq
+    split
+    · rename_i h2; simp at h2; exact absurd h2.1 hx1
+    · rename_i h2; simp at h2; exact absurd h2.1 hx2
+    · intro heq
+      simp only [] at heq
+      rw [h] at heq
+      cases heq
+
+theorem tokenize_lit (f : Nat) (c : Char) (rest : List Char)
+    (h0 : c ≠ '\\') (h1 : c ≠ '?') (h2 : c ≠ '*') (h3 : c ≠ '[') :
+    tokenize (f + 1) (c :: rest) = (tokenize f rest).map (.lit c :: ·) := by
+  simp [tokenize, h0, h1, h2, h3]
+
+theorem tokenize_quest (f : Nat) (rest : List Char) :
+    tokenize (f + 1) ('?' :: rest) = (tokenize f rest).map (.any :: ·) := by
+  simp [tokenize]
+
+theorem tokenize_star (f : Nat) (rest : List Char) :
+    tokenize (f + 1) ('*' :: rest) = (tokenize f rest).map (.star :: ·) := by
+  simp [tokenize]
+
+/-- **Parser agreement**: on a well-behaved pattern the POSIX tokeniser succeeds and
+`Pattern::new` applied to wild's `[^`→`[!` rewrite of the pattern yields the corresponding tokens. -/
+theorem parse_agree : ∀ (n : Nat) (p : List Char), p.length ≤ n →
+    ∀ (f1 f2 f3 : Nat) (prev : Option Char) (acc : List Tok),
+      p.length < f1 → p.length < f2 → p.length < f3 → wbFrom f1 p = true →
+      ∃ toks, tokenize f2 p = .ok toks ∧
+        parseLoop f3 prev acc (replaceCaret p) = some (acc.reverse ++ toks.map convTok) := by
+  intro n
+  induction n with
+  | zero =>
+    intro p hp f1 f2 f3 prev acc h1 h2 h3 _
+    have : p = [] := List.eq_nil_of_length_eq_zero (by omega)
+    subst this
+    obtain ⟨f2, rfl⟩ : ∃ g, f2 = g + 1 := ⟨f2 - 1, by omega⟩
+    obtain ⟨f3, rfl⟩ : ∃ g, f3 = g + 1 := ⟨f3 - 1, by omega⟩
+    exact ⟨[], by simp [tokenize], by simp [replaceCaret, parseLoop]⟩
+  | succ n ih =>
+    intro p hp f1 f2 f3 prev acc h1 h2 h3 hwb
+    obtain ⟨f1, rfl⟩ : ∃ g, f1 = g + 1 := ⟨f1 - 1, by omega⟩
+    obtain ⟨f2, rfl⟩ : ∃ g, f2 = g + 1 := ⟨f2 - 1, by omega⟩
+    obtain ⟨f3, rfl⟩ : ∃ g, f3 = g + 1 := ⟨f3 - 1, by omega⟩
+    cases p with
+    | nil => exact ⟨[], by simp [tokenize], by simp [replaceCaret, parseLoop]⟩
+    | cons c rest =>
+      simp only [List.length_cons] at hp h1 h2 h3
+      by_cases hbs : c = '\\'
+      · subst hbs; simp [wbFrom] at hwb
+      by_cases hq : c = '?'
+      · subst hq
+        have hwb' : wbFrom f1 rest = true := by simpa [wbFrom] using hwb
+        obtain ⟨toks, ht, hpl⟩ := ih rest (by omega) f1 f2 f3 (some '?') (.anyChar :: acc)
+          (by omega) (by omega) (by omega) hwb'
+        refine ⟨.any :: toks, ?_, ?_⟩
+        · rw [tokenize_quest, ht]; rfl
+        · rw [replaceCaret_cons_of_ne _ _ (fun h => absurd h (by decide)), parseLoop_quest, hpl]
+          simp [convTok]
+      by_cases hs : c = '*'
+      · subst hs
+        have hwb' : rest.head? ≠ some '*' ∧ wbFrom f1 rest = true := by simpa [wbFrom] using hwb
+        obtain ⟨toks, ht, hpl⟩ := ih rest (by omega) f1 f2 f3 (some '*') (.anySeq :: acc)
+          (by omega) (by omega) (by omega) hwb'.2
+        refine ⟨.star :: toks, ?_, ?_⟩
+        · rw [tokenize_star, ht]; rfl
+        · rw [replaceCaret_cons_of_ne _ _ (fun h => absurd h (by decide)),
+            parseLoop_star _ _ _ _ (by rw [replaceCaret_head]; exact hwb'.1), hpl]
+          simp [convTok]
+      by_cases hb : c = '['
+      · subst hb
+        simp only [wbFrom, show ('[' == '\\') = false by decide, show ('[' == '*') = false by decide,
+          show ('[' == '[') = true by decide, Bool.false_eq_true, if_false, if_true] at hwb
+        cases hsp : bracketSplit (stripNeg rest) with
+        | none => rw [hsp] at hwb; simp at hwb
+        | some pr =>
+          obtain ⟨m, after⟩ := pr
+          rw [hsp] at hwb
+          simp only [] at hwb
+          obtain ⟨x, body, hm, hr, hnc, hok⟩ := bracketSplit_spec hsp
+          have hbb : ∀ (g : Nat), (x :: body).length < g →
+              bracketBody g true (x :: (body ++ ']' :: after)) =
+                .closed ((parseSpecs (x :: body)).map unconvItem) after := fun g hg =>
+            bracketBody_closed (x :: body) true after g hg hok
+              (fun _ => ⟨by simp, hnc⟩) (fun h => by cases h)
+          obtain ⟨_, hok', _⟩ := bodyOk_cons hok
+          -- the three shapes of `rest`
+          have hlen : after.length + (body.length + 2) ≤ rest.length := by
+            have : (stripNeg rest).length ≤ rest.length := by
+              unfold stripNeg; split <;> simp
+            rw [hr] at this; simp at this; omega
+          have key : ∀ (T : Tok), ∃ toks, tokenize f2 after = .ok toks ∧
+              parseLoop f3 (some ']') (T :: acc) (replaceCaret after) =
+                some ((T :: acc).reverse ++ toks.map convTok) := fun T =>
+            ih after (by omega) f1 f2 f3 (some ']') (T :: acc) (by omega) (by omega) (by omega) hwb
+          by_cases hbang : rest.head? = some '!'
+          · obtain ⟨r, rfl⟩ : ∃ r, rest = '!' :: r := by
+              cases rest with
+              | nil => simp at hbang
+              | cons d r => simp at hbang; exact ⟨r, by rw [hbang]⟩
+            simp only [stripNeg] at hr
+            subst hr
+            obtain ⟨toks, ht, hpl⟩ := key (.except (parseSpecs (x :: body)))
+            refine ⟨.set true ((parseSpecs (x :: body)).map unconvItem) :: toks, ?_, ?_⟩
+            · rw [tokenize_br_bang f2 _ _ after (hbb _ (by simp; omega)), ht]; rfl
+            · rw [replaceCaret_cons_of_ne _ _ (fun _ => by simp),
+                replaceCaret_cons_of_ne _ _ (fun h => absurd h (by decide))]
+              have := replaceCaret_body (x :: body) after hok
+              simp only [List.cons_append] at this
+              rw [this, parseLoop_neg _ _ _ _ _ _ hnc, hpl]
+              simp [convTok, convItem_unconv']
+          by_cases hcar : rest.head? = some '^'
+          · obtain ⟨r, rfl⟩ : ∃ r, rest = '^' :: r := by
+              cases rest with
+              | nil => simp at hcar
+              | cons d r => simp at hcar; exact ⟨r, by rw [hcar]⟩
+            simp only [stripNeg] at hr
+            subst hr
+            obtain ⟨toks, ht, hpl⟩ := key (.except (parseSpecs (x :: body)))
+            refine ⟨.set true ((parseSpecs (x :: body)).map unconvItem) :: toks, ?_, ?_⟩
+            · rw [tokenize_br_caret f2 _ _ after (hbb _ (by simp; omega)), ht]; rfl
+            · rw [replaceCaret]
+              have := replaceCaret_body (x :: body) after hok
+              simp only [List.cons_append] at this
+              rw [this, parseLoop_neg _ _ _ _ _ _ hnc, hpl]
+              simp [convTok, convItem_unconv']
+          · have hsn : stripNeg rest = rest := by
+              unfold stripNeg
+              split
+              · simp at hbang
+              · simp at hcar
+              · rfl
+            rw [hsn] at hr
+            subst hr
+            have hx1 : x ≠ '!' := fun e => hbang (by simp [e])
+            have hx2 : x ≠ '^' := fun e => hcar (by simp [e])
+            obtain ⟨toks, ht, hpl⟩ := key (.within (parseSpecs (x :: body)))
+            refine ⟨.set false ((parseSpecs (x :: body)).map unconvItem) :: toks, ?_, ?_⟩
+            · rw [tokenize_br_pos f2 x _ _ after hx1 hx2 (hbb _ (by simp; omega)), ht]; rfl
+            · rw [replaceCaret_cons_of_ne _ _ (fun _ => by simp [hx2])]
+              have := replaceCaret_body (x :: body) after hok
+              simp only [List.cons_append] at this
+              rw [this, parseLoop_pos _ _ _ _ _ _ hx1 hnc, hpl]
+              simp [convTok, convItem_unconv']
+      · have hwb' : wbFrom f1 rest = true := by simpa [wbFrom, hbs, hs, hb] using hwb
+        obtain ⟨toks, ht, hpl⟩ := ih rest (by omega) f1 f2 f3 (some c) (.char c :: acc)
+          (by omega) (by omega) (by omega) hwb'
+        refine ⟨.lit c :: toks, ?_, ?_⟩
+        · rw [tokenize_lit _ _ _ hbs hq hs hb, ht]; rfl
+        · rw [replaceCaret_cons_of_ne _ _ (fun h => absurd h hb), parseLoop_lit _ _ _ _ _ hq hs hb, hpl]
+          simp [convTok]
+
+/-- Character-level core: a well-behaved pattern is accepted by `Pattern::new` (after wild's
+`[^`→`[!` rewrite) and is inside the domain of the POSIX spec, and the two matchers agree on every
+name. -/
+theorem glob_accepts_and_agrees (p : List Char) (h : WellBehaved p = true) :
+    ∃ toks, patternNew (replaceCaret p) = some toks ∧
+      ∀ s, fnmatch p s = some (patternMatches toks s) := by
+  unfold WellBehaved at h
+  obtain ⟨toks, ht, hpl⟩ := parse_agree p.length p (Nat.le_refl _) (p.length + 1) (p.length + 1)
+    ((replaceCaret p).length + 1) none [] (by omega) (by omega)
+    (by rw [replaceCaret_length _ _ (Nat.le_refl _)]; omega) h
+  refine ⟨toks.map convTok, ?_, ?_⟩
+  · unfold patternNew; rw [hpl]; simp
+  · intro s
+    unfold fnmatch
+    rw [ht]
+    simp [patternMatches_eq_pmatch]
+
+/-- **C15, glob crate = fnmatch on the well-behaved class (character level, any Unicode).**
+For every well-behaved pattern `p` and every name `s`: `Pattern::new` applied to wild's
+`replace("[^","[!")` of `p` succeeds, and `Pattern::matches` answers what POSIX
+`fnmatch(p, s, 0)` answers. -/
+theorem glob_eq_fnmatch_chars (p s : List Char) (h : WellBehaved p = true) :
+    (patternNew (replaceCaret p)).map (fun toks => patternMatches toks s) = fnmatch p s := by
+  obtain ⟨toks, h1, h2⟩ := glob_accepts_and_agrees p h
+  rw [h1, h2]; rfl
+
+/-- What `compile_glob_pattern(p)` followed by `Pattern::matches(name)` answers (`none`: the
+pattern is rejected). -/
+def globMatches (c : Except CompileError (List Tok)) (name : Bytes) : Option Bool :=
+  match c with
+  | .ok toks => some (matchesBytes toks name)
+  | .error _ => none
+
+/-- **C15, `glob_eq_fnmatch_partial`.** For every pattern whose text is well-behaved and every
+name (both valid UTF-8, decoded to `pc` / `nc`): `compile_glob_pattern` accepts the pattern and
+`Pattern::matches` agrees with POSIX `fnmatch`. -/
+theorem glob_eq_fnmatch_partial (p name : Bytes) (pc nc : List Char)
+    (hp : fromUtf8 p = some pc) (hn : fromUtf8 name = some nc) (h : WellBehaved pc = true) :
+    globMatches (compile p) name = fnmatch pc nc := by
+  obtain ⟨toks, h1, h2⟩ := glob_accepts_and_agrees pc h
+  unfold globMatches compile matchesBytes
+  simp only [hp, h1, hn, h2]
+
+/-! ASCII byte strings: the UTF-8 decoder is the identity, so the statement can be made directly on
+the bytes (this is the form `specMatch` uses). -/
+
+def IsAscii (b : Bytes) : Bool := b.all (fun x => x < 0x80)
+
+def asChars (b : Bytes) : List Char := b.map (fun x => Char.ofNat x.toNat)
+
+theorem decodeUtf8_ascii (bs : Bytes) : ∀ fuel, bs.length < fuel → IsAscii bs = true →
+    decodeUtf8 fuel bs = some (asChars bs) := by
+  induction bs with
+  | nil =>
+    intro fuel hf _
+    obtain ⟨f, rfl⟩ : ∃ g, fuel = g + 1 := ⟨fuel - 1, by omega⟩
+    simp [decodeUtf8, asChars]
+  | cons b bs ih =>
+    intro fuel hf ha
+    obtain ⟨f, rfl⟩ : ∃ g, fuel = g + 1 := ⟨fuel - 1, by omega⟩
+    simp only [IsAscii, List.all_cons, Bool.and_eq_true, decide_eq_true_eq] at ha
+    have := ih f (by simp at hf; omega) (by simpa [IsAscii] using ha.2)
+    simp only [decodeUtf8, ha.1, if_true, this]
+    simp [asChars]
+
+theorem fromUtf8_ascii (bs : Bytes) (h : IsAscii bs = true) : fromUtf8 bs = some (asChars bs) :=
+  decodeUtf8_ascii bs _ (Nat.lt_succ_self _) h
+
+/-- ASCII form: the left side is the model of the glob crate path used by wild, the right side is
+`specMatch`, the independent POSIX spec on the same bytes. -/
+theorem glob_eq_fnmatch_ascii (p name : Bytes) (hp : IsAscii p = true) (hn : IsAscii name = true)
+    (h : WellBehaved (asChars p) = true) :
+    globMatches (compile p) name = specMatch p name :=
+  glob_eq_fnmatch_partial p name _ _ (fromUtf8_ascii p hp) (fromUtf8_ascii name hn) h
+
+/-! Non-vacuity: members and non-members of the class, and instances of the theorem. -/
+
+example : WellBehaved ".text.*".toList = true := by decide
+example : WellBehaved "*a?b*c".toList = true := by decide
+example : WellBehaved "[a-z]x[!0-9_]*".toList = true := by decide
+example : WellBehaved "[^a-c]?".toList = true := by decide
+example : WellBehaved "[]a]*[!]]".toList = true := by decide
+example : WellBehaved "a]b^c!d-e".toList = true := by decide
+example : WellBehaved "[*?]**".toList = false := by decide
+example : WellBehaved "[**]".toList = true := by decide
+example : WellBehaved "a\\*".toList = false := by decide
+example : WellBehaved "a**b".toList = false := by decide
+example : WellBehaved "[a".toList = false := by decide
+example : WellBehaved "[!]".toList = false := by decide
+example : WellBehaved "[a[^]".toList = false := by decide
+example : WellBehaved "[[:alpha:]]".toList = false := by decide
+example : globMatches (compile (ascii ".t[a-e]x?.*")) (ascii ".text.hot") = some true := by decide
+example : specMatch (ascii ".t[a-e]x?.*") (ascii ".text.hot") = some true := by decide
+example : globMatches (compile (ascii "[!.]*")) (ascii ".text") = some false := by decide
+
+/-! ## The whole `SectionRule::new` / `SectionRule::matches` path on the well-behaved class -/
+
+theorem toNat_ofNat_small (n : Nat) (h : n < 256) : (Char.ofNat n).toNat = n := by
+  have hv : n.isValidChar := Or.inl (by omega)
+  simp only [Char.ofNat, hv, dif_pos, Char.ofNatAux, Char.toNat]
+  simp [UInt32.toNat_ofNatLT]
+
+theorem byteChar_inj (a b : UInt8) (h : Char.ofNat a.toNat = Char.ofNat b.toNat) : a = b := by
+  have := congrArg Char.toNat h
+  rw [toNat_ofNat_small _ (UInt8.toNat_lt a), toNat_ofNat_small _ (UInt8.toNat_lt b)] at this
+  exact UInt8.toNat_inj.mp this
+
+theorem asChars_inj : ∀ (a b : Bytes), asChars a = asChars b → a = b := by
+  intro a
+  induction a with
+  | nil => intro b h; cases b with
+    | nil => rfl
+    | cons _ _ => simp [asChars] at h
+  | cons x a ih =>
+    intro b h
+    cases b with
+    | nil => simp [asChars] at h
+    | cons y b =>
+      simp only [asChars, List.map_cons, List.cons.injEq] at h
+      rw [byteChar_inj x y h.1, ih b h.2]
+
+theorem bodyOk_no_backslash : ∀ (l : List Char), bodyOk l = true → '\\' ∉ l := by
+  intro l
+  induction l with
+  | nil => intro _ h; cases h
+  | cons c l ih =>
+    intro h hm
+    obtain ⟨h1, h2, _⟩ := bodyOk_cons h
+    simp only [List.mem_cons] at hm
+    rcases hm with hm | hm
+    · exact h1 hm.symm
+    · exact ih h2 hm
+
+theorem mem_stripNeg {c : Char} {l : List Char} (h : c ∈ l) : c ∈ stripNeg l ∨ c = '!' ∨ c = '^' := by
+  unfold stripNeg
+  split
+  · simp only [List.mem_cons] at h; rcases h with h | h
+    · exact Or.inr (Or.inl h)
+    · exact Or.inl h
+  · simp only [List.mem_cons] at h; rcases h with h | h
+    · exact Or.inr (Or.inr h)
+    · exact Or.inl h
+  · exact Or.inl h
+
+/-- A well-behaved pattern contains no backslash. -/
+theorem wb_no_backslash : ∀ (n : Nat) (p : List Char) (f : Nat), p.length ≤ n → wbFrom f p = true → '\\' ∉ p := by
+  intro n
+  induction n with
+  | zero =>
+    intro p f hp _ hm
+    have : p = [] := List.eq_nil_of_length_eq_zero (by omega)
+    subst this; cases hm
+  | succ n ih =>
+    intro p f hp hwb hm
+    cases p with
+    | nil => cases hm
+    | cons c rest =>
+      cases f with
+      | zero => simp [wbFrom] at hwb
+      | succ f =>
+        simp only [List.length_cons] at hp
+        by_cases hbs : c = '\\'
+        · subst hbs; simp [wbFrom] at hwb
+        have hm' : '\\' ∈ rest := by
+          simp only [List.mem_cons] at hm
+          rcases hm with hm | hm
+          · exact absurd hm.symm hbs
+          · exact hm
+        by_cases hs : c = '*'
+        · subst hs
+          have hwb' : rest.head? ≠ some '*' ∧ wbFrom f rest = true := by simpa [wbFrom] using hwb
+          exact ih rest f (by omega) hwb'.2 hm'
+        by_cases hb : c = '['
+        · subst hb
+          simp only [wbFrom, show ('[' == '\\') = false by decide, show ('[' == '*') = false by decide,
+            show ('[' == '[') = true by decide, Bool.false_eq_true, if_false, if_true] at hwb
+          cases hsp : bracketSplit (stripNeg rest) with
+          | none => rw [hsp] at hwb; simp at hwb
+          | some pr =>
+            obtain ⟨m, after⟩ := pr
+            rw [hsp] at hwb
+            simp only [] at hwb
+            obtain ⟨x, body, _, hr, _, hok⟩ := bracketSplit_spec hsp
+            have hlen : after.length < rest.length := by
+              have : (stripNeg rest).length ≤ rest.length := by
+                unfold stripNeg; split <;> simp
+              rw [hr] at this; simp at this; omega
+            rcases mem_stripNeg hm' with h | h | h
+            · rw [hr] at h
+              have : '\\' ∈ (x :: body) ++ ']' :: after := by simpa using h
+              rw [List.mem_append] at this
+              rcases this with h | h
+              · exact bodyOk_no_backslash _ hok h
+              · simp only [List.mem_cons] at h
+                rcases h with h | h
+                · exact absurd h (by decide)
+                · exact ih after f (by omega) hwb h
+            · exact absurd h (by decide)
+            · exact absurd h (by decide)
+        · have hwb' : wbFrom f rest = true := by simpa [wbFrom, hbs, hs, hb] using hwb
+          exact ih rest f (by omega) hwb' hm'
+
+theorem wellBehaved_no_backslash_byte (p : Bytes) (h : WellBehaved (asChars p) = true) : bBackslash ∉ p := by
+  intro hm
+  have : '\\' ∈ asChars p := by
+    unfold asChars
+    exact List.mem_map.mpr ⟨bBackslash, hm, by decide⟩
+  exact wb_no_backslash _ _ _ (Nat.le_refl _) h this
+
+/-! `analyze_glob_pattern` -/
+
+def plainByte (c : UInt8) : Bool := c != bStar && c != bQuest && c != bBackslash && c != bOpen && c != bClose
+
+theorem analyzeLoop_exact (t : PatternType) (p : Bytes) :
+    analyzeLoop t p = .exact → t = .exact ∧ p.all plainByte = true := by
+  fun_induction analyzeLoop t p with
+  | case1 t => intro h; exact ⟨h, rfl⟩
+  | case2 t c hc t' =>
+    intro h
+    cases t <;> simp [t'] at h
+  | case3 t c hc t' x rest' ih =>
+    intro h
+    have := (ih h).1
+    cases t <;> simp [t'] at this
+  | case4 t c rest hc hs => intro h; cases h
+  | case5 t c rest hc hs hm ih => intro h; have := (ih h).1; cases this
+  | case6 t c rest hc hs hm ih =>
+    intro h
+    obtain ⟨h1, h2⟩ := ih h
+    refine ⟨h1, ?_⟩
+    simp only [List.all_cons, h2, Bool.and_true, plainByte]
+    simp only [Bool.or_eq_true, not_or, beq_iff_eq] at hm hc hs
+    simp [hc, hs, hm]
+
+theorem analyzeLoop_escaped (t : PatternType) (p : Bytes) :
+    analyzeLoop t p = .escapedExact → t = .escapedExact ∨ bBackslash ∈ p := by
+  fun_induction analyzeLoop t p with
+  | case1 t => intro h; exact Or.inl h
+  | case2 t c hc t' => intro _; exact Or.inr (by simp at hc; simp [hc])
+  | case3 t c hc t' x rest' ih => intro _; exact Or.inr (by simp at hc; simp [hc])
+  | case4 t c rest hc hs => intro h; cases h
+  | case5 t c rest hc hs hm ih =>
+    intro h
+    rcases ih h with h | h
+    · cases h
+    · exact Or.inr (List.mem_cons_of_mem _ h)
+  | case6 t c rest hc hs hm ih =>
+    intro h
+    rcases ih h with h | h
+    · exact Or.inl h
+    · exact Or.inr (List.mem_cons_of_mem _ h)
+
+theorem analyze_cases (p : Bytes) (h : bBackslash ∉ p) :
+    (analyze p = .exact ∧ p.all plainByte = true) ∨ analyze p = .star ∨ analyze p = .nonStar := by
+  unfold analyze
+  by_cases hall : (p.all fun c => c != bStar && c != bQuest && c != bBackslash && c != bOpen && c != bClose) = true
+  · rw [if_pos hall]; exact Or.inl ⟨rfl, hall⟩
+  · rw [if_neg hall]
+    cases hr : analyzeLoop .exact p with
+    | exact => exact Or.inl ⟨rfl, (analyzeLoop_exact _ _ hr).2⟩
+    | escapedExact =>
+      rcases analyzeLoop_escaped _ _ hr with h' | h'
+      · cases h'
+      · exact absurd h' h
+    | star => exact Or.inr (Or.inl rfl)
+    | nonStar => exact Or.inr (Or.inr rfl)
+
+/-! The POSIX spec on a pattern without metacharacters: string equality. -/
+
+theorem tokenize_plain : ∀ (p : List Char) (f : Nat), p.length < f →
+    (∀ c ∈ p, c ≠ '\\' ∧ c ≠ '?' ∧ c ≠ '*' ∧ c ≠ '[') → tokenize f p = .ok (p.map .lit) := by
+  intro p
+  induction p with
+  | nil =>
+    intro f hf _
+    obtain ⟨f, rfl⟩ : ∃ g, f = g + 1 := ⟨f - 1, by omega⟩
+    simp [tokenize]
+  | cons c p ih =>
+    intro f hf h
+    obtain ⟨f, rfl⟩ : ∃ g, f = g + 1 := ⟨f - 1, by omega⟩
+    obtain ⟨h0, h1, h2, h3⟩ := h c List.mem_cons_self
+    rw [tokenize_lit _ _ _ h0 h1 h2 h3, ih f (by simp at hf; omega) (fun d hd => h d (List.mem_cons_of_mem _ hd))]
+    rfl
+
+theorem pmatch_plain : ∀ (p s : List Char), pmatch (p.map .lit) s = decide (s = p) := by
+  intro p
+  induction p with
+  | nil => intro s; cases s <;> simp [pmatch]
+  | cons c p ih =>
+    intro s
+    cases s with
+    | nil => simp [pmatch]
+    | cons d s =>
+      simp only [List.map_cons, pmatch, ih]
+      by_cases h1 : c = d
+      · subst h1; simp
+      · have : ¬ d = c := fun e => h1 e.symm
+        simp [h1, this]
+
+theorem plain_chars (p : Bytes) (h : p.all plainByte = true) :
+    ∀ c ∈ asChars p, c ≠ '\\' ∧ c ≠ '?' ∧ c ≠ '*' ∧ c ≠ '[' := by
+  intro c hc
+  unfold asChars at hc
+  obtain ⟨b, hb, rfl⟩ := List.mem_map.mp hc
+  have hp := List.all_eq_true.mp h b hb
+  simp only [plainByte, Bool.and_eq_true, bne_iff_ne, ne_eq] at hp
+  obtain ⟨⟨⟨⟨h1, h2⟩, h3⟩, h4⟩, _⟩ := hp
+  refine ⟨?_, ?_, ?_, ?_⟩
+  · intro e; exact h3 (byteChar_inj b bBackslash (by rw [e]; decide))
+  · intro e; exact h2 (byteChar_inj b bQuest (by rw [e]; decide))
+  · intro e; exact h1 (byteChar_inj b bStar (by rw [e]; decide))
+  · intro e; exact h4 (byteChar_inj b bOpen (by rw [e]; decide))
+
+/-- **C15, the whole section-name path.** For every ASCII pattern whose text is well-behaved and
+every ASCII section name: `SectionRule::new` accepts the pattern (as an exact matcher when it has no
+metacharacter, otherwise as a compiled glob) and `SectionRule::matches` answers what POSIX
+`fnmatch(pattern, name, 0)` answers. -/
+theorem section_rule_eq_fnmatch (p name : Bytes) (hp : IsAscii p = true) (hn : IsAscii name = true)
+    (h : WellBehaved (asChars p) = true) :
+    wildMatch p name = specMatch p name := by
+  have hnb := wellBehaved_no_backslash_byte p h
+  obtain ⟨toks, h1, h2⟩ := glob_accepts_and_agrees _ h
+  have hcomp : compile p = .ok toks := by
+    unfold compile; rw [fromUtf8_ascii p hp]; simp only [h1]
+  have hspec : specMatch p name = some (matchesBytes toks name) := by
+    have := glob_eq_fnmatch_ascii p name hp hn h
+    rw [hcomp] at this
+    exact this.symm
+  rcases analyze_cases p hnb with ⟨ha, hall⟩ | ha | ha
+  · have hw : wildMatch p name = some (name == p) := by
+      simp [wildMatch, Rule.new, ha, bind, Except.bind, pure, Except.pure, Rule.matches, NameMatcher.matches]
+      by_cases e : name = p <;> simp [e]
+    rw [hw]
+    unfold specMatch fnmatch
+    have := tokenize_plain (asChars p) ((asChars p).length + 1) (Nat.lt_succ_self _) (plain_chars p hall)
+    unfold asChars at this
+    rw [this]
+    have hpm := pmatch_plain (asChars p) (asChars name)
+    unfold asChars at hpm
+    simp only [hpm]
+    by_cases e : name = p
+    · subst e; simp
+    · have : ¬ asChars name = asChars p := fun e' => e (asChars_inj _ _ e')
+      unfold asChars at this
+      simp [e, this]
+  · rw [hspec]
+    simp [wildMatch, Rule.new, ha, hcomp, bind, Except.bind, pure, Except.pure, Except.map, Rule.matches, NameMatcher.matches]
+  · rw [hspec]
+    simp [wildMatch, Rule.new, ha, hcomp, bind, Except.bind, pure, Except.pure, Except.map, Rule.matches, NameMatcher.matches]
+
+example : wildMatch (ascii ".text") (ascii ".text") = some true ∧ specMatch (ascii ".text") (ascii ".text") = some true := by decide
+example : IsAscii (ascii ".t[a-e]x?.*") = true ∧ WellBehaved (asChars (ascii ".t[a-e]x?.*")) = true := by decide
+
+/-! The bracket-free subclass (literals, `?`, single `*`) as a directly readable special case. -/
+
+/-- No backslash, no `[`, no `**`. -/
+def StarQuestion : List Char → Bool
+  | [] => true
+  | c :: rest => c != '\\' && c != '[' && !(c == '*' && rest.head? == some '*') && StarQuestion rest
+
+theorem starQuestion_wb : ∀ (p : List Char) (f : Nat), p.length < f → StarQuestion p = true → wbFrom f p = true := by
+  intro p
+  induction p with
+  | nil =>
+    intro f hf _
+    obtain ⟨f, rfl⟩ : ∃ g, f = g + 1 := ⟨f - 1, by omega⟩
+    simp [wbFrom]
+  | cons c p ih =>
+    intro f hf h
+    obtain ⟨f, rfl⟩ : ∃ g, f = g + 1 := ⟨f - 1, by omega⟩
+    simp only [StarQuestion, Bool.and_eq_true, bne_iff_ne, ne_eq, Bool.not_eq_true', Bool.and_eq_false_iff,
+      beq_eq_false_iff_ne] at h
+    obtain ⟨⟨⟨h1, h2⟩, h3⟩, h4⟩ := h
+    have hrec := ih f (by simp at hf; omega) h4
+    by_cases hs : c = '*'
+    · subst hs
+      have : p.head? ≠ some '*' := by
+        rcases h3 with h3 | h3
+        · exact absurd rfl h3
+        · exact h3
+      simp [wbFrom, this, hrec]
+    · simp [wbFrom, h1, h2, hs, hrec]
+
+/-- `glob_eq_fnmatch_star_question`: the statement for patterns built from ordinary characters,
+`?` and single `*` only. -/
+theorem glob_eq_fnmatch_star_question (p s : List Char) (h : StarQuestion p = true) :
+    (patternNew (replaceCaret p)).map (fun toks => patternMatches toks s) = fnmatch p s :=
+  glob_eq_fnmatch_chars p s (starQuestion_wb p _ (Nat.lt_succ_self _) h)
+
+example : StarQuestion ".text.*".toList = true := by decide
+example : StarQuestion "*a?b]*c".toList = true := by decide
+example : StarQuestion "a**".toList = false := by decide
+
 end Wild.C15
